@@ -83,7 +83,10 @@ type World struct {
 	Decs        map[string]int64
 	Denoms      []string
 	FixtureMint int64
-	V1Bias      bool // driver bias: this run lets the first generation do most of the liquidating
+	V1Bias      bool                   // driver bias: this run lets the first generation do most of the liquidating
+	Esm         bool                   // driver: emergency-shutdown actions enabled
+	EsmBias     bool                   // driver bias: this run heads for an emergency shutdown
+	last        map[string]interface{} // projection of the current state (pre-state of the next step), for the step labels
 }
 
 var AllDenoms = []string{"ucm", "uat", "ust", "uus", "uhb"}
@@ -493,3 +496,90 @@ func (w *World) ConfigJSON() map[string]interface{} {
 
 var _ = time.Second
 var _ = esmtypes.ModuleName
+
+// Record projects the state after action a, attaches the step labels and appends the node to the log.
+func (w *World) Record(lg *sim.Log, par int, run string, root int, a Act, rs Res) (int, map[string]interface{}) {
+	st := w.Project()
+	ev := w.labels(w.last, st, a)
+	w.last = st
+	return lg.Add(par, run, a.A, a.Args(), rs, map[string]interface{}{"s": st, "root": root, "ev": ev}), st
+}
+
+// labels names what happened in a step, computed from the recorded pre- and post-state only (nothing is judged here): which
+// emergency-shutdown stages were completed by this step, how many auctions of either generation were due for their
+// emergency-shutdown close-out in it, how many vaults a block hook created. Known findings are keyed on these labels so that
+// an entry matches exactly the kind of step it describes.
+func (w *World) labels(pre, post map[string]interface{}, a Act) map[string]interface{} {
+	flag := func(st map[string]interface{}, k string) bool {
+		e, _ := st["esm"].(map[string]interface{})
+		b, _ := e[k].(bool)
+		return b
+	}
+	flip := func(k string) bool { return !flag(pre, k) && flag(post, k) }
+	ev := map[string]interface{}{"esmSnap": flip("snap"), "esmVaultRed": flip("vaultRed"), "esmStableRed": flip("stableRed"),
+		"esmCollTx": flip("collTx"), "esmShare": flip("shareCalc"), "esmOn": flag(pre, "status")}
+	// the stable-vault stage completed in this step while stable-mint vault records existed (KF-C01-ESM-1 is about exactly those steps)
+	nStable := 0
+	if sv, ok := pre["svaults"].([]interface{}); ok {
+		nStable = len(sv)
+	}
+	ev["esmStableLeft"] = flip("stableRed") && nStable > 0
+	tPost, _ := post["t"].(int64)
+	due := func(key string, only map[uint64]bool) int {
+		n := 0
+		if !flag(pre, "status") {
+			return 0
+		}
+		list, _ := pre[key].([]interface{})
+		for _, x := range list {
+			m := x.(map[string]interface{})
+			if d, ok := m["dutch"].(bool); ok && !d {
+				continue
+			}
+			if only != nil && !only[m["lv"].(uint64)] {
+				continue
+			}
+			if end, _ := m["end"].(int64); tPost > end {
+				n++
+			}
+		}
+		return n
+	}
+	vaultInit := map[uint64]bool{} // V2 locked vaults that came from a vault (TriggerEsm handles only those)
+	if ls, ok := pre["locked"].([]interface{}); ok {
+		for _, x := range ls {
+			m := x.(map[string]interface{})
+			if m["initiator"] == "vault" {
+				vaultInit[m["id"].(uint64)] = true
+			}
+		}
+	}
+	ev["v2EsmDue"], ev["v1EsmDue"] = 0, 0
+	if a.A == "Block" {
+		ev["v2EsmDue"] = due("auctions", vaultInit)
+	}
+	if a.A == "V1Tick" {
+		ev["v1EsmDue"] = due("auctionsV1", nil)
+	}
+	ev["v2Esm"] = ev["v2EsmDue"].(int) > 0 // this block was due to run V2 TriggerEsm for at least one vault-initiated Dutch auction
+	ev["v1Esm"] = ev["v1EsmDue"].(int) > 0 // this V1 tick was due to close out at least one V1 Dutch auction under emergency shutdown
+	ids := func(st map[string]interface{}) map[uint64]bool {
+		out := map[uint64]bool{}
+		list, _ := st["vaults"].([]interface{})
+		for _, x := range list {
+			out[x.(map[string]interface{})["id"].(uint64)] = true
+		}
+		return out
+	}
+	nv := 0
+	if a.A != "Create" && a.A != "Init" {
+		before := ids(pre)
+		for id := range ids(post) {
+			if !before[id] {
+				nv++
+			}
+		}
+	}
+	ev["hookVaults"] = nv
+	return ev
+}
